@@ -2,31 +2,36 @@ import ScVerif.C02.Model
 /-!
 # C03 — model of writers publishing to subscribers of a `resource.Value` / `resource.Collection`
 
-Follows `/repo/pkg/resource/{value,collection}.go` and `/repo/internal/minibus/bus.go`:
+Follows `/repo/pkg/resource/{value,collection,backpressure}.go`, `/repo/internal/minibus/{bus,util}.go`:
 
 * a write = `commit` (one atomic section under `mu.Lock`: by C02 every successful write takes effect
   atomically at its commit, a refused or aborted write has no effect and publishes nothing) ▸ `snap`
   (`Bus.Send` copies the listener slice) ▸ `deliver` to each listener of the copy in turn (`listener.send`,
-  a channel rendezvous).  `Value.set` / `Collection.Update` run `snap` and `deliver` AFTER releasing the lock;
+  a channel rendezvous) ▸ `Bus.collect` if a listener of the copy was found dead (re-reads `b.listeners` under
+  the lock and keeps the live ones).  `Value.set` / `Collection.Update` publish AFTER releasing the lock;
   `Collection.Delete` commits, snapshots and delivers while HOLDING the write lock.
 * `subscribe` (`onUpdate`): under `mu.RLock` take the snapshot of the contents (unless updates-only) and
   register the listener — one atomic step with respect to commits.
-* a subscriber's view is the fold of the events it received over its seed.  The consumer is assumed to keep
-  receiving (the property's premise), so the buffering stages between bus and consumer (forwarder in hand,
-  `DropExcess`, `mergeCollectionExcess`: C09 shows they preserve the fold) are drained and a delivery is
-  never refused.
+* `cancel`: the subscriber's context is cancelled and `listener.stop` has closed its channel: from then on a
+  `listener.send` to it returns "not active" without delivering.
+* between the bus and the consumer sits one stage (`pending`): with backpressure the forwarder goroutine holds
+  at most ONE event in hand and the bus blocks until it is free; without, `mergeCollectionExcess` /
+  `DropExcess` always accept and MERGE into one pending change per id, FIFO by id, cancelling ADD+REMOVE.
+  `recv` is the consumer taking the next event: ANY consumer pace is a schedule.
+* the forwarder filters every event (and the seed) through the subscriber's read mask: the observed view is
+  the projection of the raw view.
 
-Publications in flight are kept in commit order in `pubs` (the grouping is ghost; each belongs to the
-writer that committed it).  Schedules name a writer's commit, or the next move of the `k`-th publication
-in flight, or a subscriber's subscribe step.
+Publications in flight are kept in commit order in `pubs`.  Ghost: `seq`, `subAt`, `got`.
 -/
 namespace ScVerif.C03
 open ScVerif.C02 (setAt setAt_same setAt_other)
 
 structure Event (M : Type) where
   id : Nat
-  /-- `some v`: ADD/UPDATE with new value `v`; `none`: REMOVE -/
+  /-- `some v`: ADD/UPDATE/REPLACE carrying `v`; `none`: REMOVE -/
   new : Option M
+  /-- change type ADD (the only kind `mergeChanges` cancels against a following REMOVE) -/
+  isAdd : Bool
   /-- ghost: index of the commit that produced it -/
   seq : Nat
 
@@ -46,6 +51,8 @@ structure Pub (M : Type) where
   stage : Option (List Nat)
   /-- published while holding the write lock (Delete) -/
   locked : Bool
+  /-- a listener of the copy was found dead: `collect` runs at the end of this Send -/
+  gc : Bool
 
 structure Writer (M : Type) where
   prog : List (WOp M)
@@ -53,14 +60,29 @@ structure Writer (M : Type) where
 
 structure Sub (M : Type) where
   registered : Bool
+  cancelled : Bool
   updatesOnly : Bool
+  /-- `WithBackpressure(false)` (the default) -/
+  lossy : Bool
+  /-- read mask, as the projection the forwarder applies to every message -/
+  mask : M → M
   /-- contents at the subscribe step: the seed (for an updates-only subscriber: ghost, what it must already know) -/
   base : Nat → Option M
+  /-- events the consumer has received, in order (before the mask) -/
   evs : List (Event M)
+  /-- the stage between bus and consumer: forwarder in hand (backpressure) or the merger's pending changes -/
+  pending : List (Event M)
+  /-- ghost: seqs the bus has handed to this subscriber's stage -/
+  got : List Nat
   /-- ghost: number of commits before the subscribe step -/
   subAt : Nat
 
-def Sub.view {M : Type} (s : Sub M) : Nat → Option M := s.evs.foldl applyEv s.base
+def Sub.rawView {M : Type} (s : Sub M) : Nat → Option M := s.evs.foldl applyEv s.base
+
+/-- what the consumer sees: every message passed through its read mask -/
+def Sub.view {M : Type} (s : Sub M) : Nat → Option M := fun i => (s.rawView i).map s.mask
+
+def Sub.live {M : Type} (s : Sub M) : Bool := s.registered && !s.cancelled
 
 structure Cfg (M : Type) where
   store : Nat → Option M
@@ -78,18 +100,31 @@ inductive Act
   | snap (k : Nat)
   | deliver (k : Nat)
   | sub (s : Nat)
+  | cancel (s : Nat)
+  | recv (s : Nat)
   deriving DecidableEq, Repr
 
 variable {M : Type}
 
+/-- `mergeCollectionExcess` receiving `e`: the pending change of the same id (if any) is removed from the
+queue and the merged change pushed at the back; ADD followed by REMOVE cancels; a change merged onto a
+pending ADD stays an ADD (`mergeChanges`). -/
+def mergeInto : List (Event M) → Event M → List (Event M)
+  | [], e => [e]
+  | a :: P, e =>
+    if a.id = e.id then
+      (if a.isAdd && e.new.isNone then P else P ++ [{ e with isAdd := a.isAdd }])
+    else a :: mergeInto P e
+
 def Cfg.popOp (c : Cfg M) (t : Nat) (rest : List (WOp M)) (busy : Bool) : Cfg M :=
   { c with writers := setAt c.writers t ⟨rest, busy⟩ }
 
-/-- the publication is over: the writer may go on, a Delete releases the lock -/
+/-- the publication is over: `collect` if a dead listener was met, the writer may go on, a Delete releases the lock -/
 def Cfg.finishPub (c : Cfg M) (p : Pub M) (pubs' : List (Pub M)) : Cfg M :=
   { c with pubs := pubs'
            writers := setAt c.writers p.owner { c.writers p.owner with busy := false }
-           lock := if p.locked then none else c.lock }
+           lock := if p.locked then none else c.lock
+           listeners := if p.gc then c.listeners.filter (fun s => !(c.subs s).cancelled) else c.listeners }
 
 def stepCommit (c : Cfg M) (t : Nat) : Cfg M :=
   let w := c.writers t
@@ -100,22 +135,22 @@ def stepCommit (c : Cfg M) (t : Nat) : Cfg M :=
     match f (c.store id) with
     | none => c.popOp t rest false
     | some v =>
-      let e : Event M := ⟨id, some v, c.nextSeq⟩
+      let e : Event M := ⟨id, some v, (c.store id).isNone, c.nextSeq⟩
       { c.popOp t rest true with
         store := applyEv c.store e, nextSeq := c.nextSeq + 1,
-        pubs := c.pubs ++ [⟨t, e, none, false⟩] }
+        pubs := c.pubs ++ [⟨t, e, none, false, false⟩] }
   | .del id p :: rest =>
     match c.store id with
     | none => c.popOp t rest false
     | some b =>
       if p b then
-        let e : Event M := ⟨id, none, c.nextSeq⟩
+        let e : Event M := ⟨id, none, false, c.nextSeq⟩
         if c.listeners.isEmpty then
           { c.popOp t rest false with store := applyEv c.store e, nextSeq := c.nextSeq + 1 }
         else
           { c.popOp t rest true with
             store := applyEv c.store e, nextSeq := c.nextSeq + 1, lock := some t,
-            pubs := c.pubs ++ [⟨t, e, some c.listeners, true⟩] }
+            pubs := c.pubs ++ [⟨t, e, some c.listeners, true, false⟩] }
       else c.popOp t rest false
 
 def stepSnap (c : Cfg M) (k : Nat) : Cfg M :=
@@ -128,6 +163,10 @@ def stepSnap (c : Cfg M) (k : Nat) : Cfg M :=
       if c.listeners.isEmpty then c.finishPub p (c.pubs.take k ++ post)
       else { c with pubs := c.pubs.take k ++ { p with stage := some c.listeners } :: post }
 
+/-- hand `e` to subscriber `sb`'s stage -/
+def Sub.accept (sb : Sub M) (e : Event M) : Sub M :=
+  { sb with pending := if sb.lossy then mergeInto sb.pending e else [e], got := sb.got ++ [e.seq] }
+
 def stepDeliver (c : Cfg M) (k : Nat) : Cfg M :=
   match c.pubs.drop k with
   | [] => c
@@ -137,30 +176,53 @@ def stepDeliver (c : Cfg M) (k : Nat) : Cfg M :=
     | some [] => c
     | some (s :: rem) =>
       let sb := c.subs s
-      let c' := { c with subs := setAt c.subs s { sb with evs := sb.evs ++ [p.ev] } }
-      if rem.isEmpty then c'.finishPub p (c.pubs.take k ++ post)
-      else { c' with pubs := c.pubs.take k ++ { p with stage := some rem } :: post }
+      if !sb.cancelled && !sb.lossy && !sb.pending.isEmpty then c   -- the forwarder is busy: the bus blocks
+      else
+        let p' : Pub M := { p with gc := p.gc || sb.cancelled }
+        let c' : Cfg M := { c with subs := if sb.cancelled then c.subs else setAt c.subs s (sb.accept p.ev) }
+        if rem.isEmpty then c'.finishPub p' (c.pubs.take k ++ post)
+        else { c' with pubs := c.pubs.take k ++ { p' with stage := some rem } :: post }
 
 def stepSub (c : Cfg M) (s : Nat) : Cfg M :=
   let sb := c.subs s
   if sb.registered || (!sb.updatesOnly && c.lock.isSome) then c else
-  { c with subs := setAt c.subs s { sb with registered := true, base := c.store, evs := [], subAt := c.nextSeq }
+  { c with subs := setAt c.subs s
+             { sb with registered := true, base := c.store, evs := [], pending := [], got := [], subAt := c.nextSeq }
            listeners := c.listeners ++ [s] }
+
+def stepCancel (c : Cfg M) (s : Nat) : Cfg M :=
+  let sb := c.subs s
+  if sb.registered && !sb.cancelled then { c with subs := setAt c.subs s { sb with cancelled := true } } else c
+
+/-- the consumer takes the next event out of the stage -/
+def stepRecv (c : Cfg M) (s : Nat) : Cfg M :=
+  let sb := c.subs s
+  match sb.pending with
+  | [] => c
+  | e :: rest => { c with subs := setAt c.subs s { sb with evs := sb.evs ++ [e], pending := rest } }
 
 def step (c : Cfg M) : Act → Cfg M
   | .commit t => stepCommit c t
   | .snap k => stepSnap c k
   | .deliver k => stepDeliver c k
   | .sub s => stepSub c s
+  | .cancel s => stepCancel c s
+  | .recv s => stepRecv c s
 
 def run (c : Cfg M) (sched : List Act) : Cfg M := sched.foldl step c
 
-def initCfg (s₀ : Nat → Option M) (progs : Nat → List (WOp M)) (updatesOnly : Nat → Bool) : Cfg M :=
+/-- subscriber options: updates-only, lossy, read mask -/
+structure SubOpts (M : Type) where
+  updatesOnly : Bool
+  lossy : Bool
+  mask : M → M
+
+def initCfg (s₀ : Nat → Option M) (progs : Nat → List (WOp M)) (opts : Nat → SubOpts M) : Cfg M :=
   { store := s₀, nextSeq := 0, lock := none, listeners := [], pubs := []
     writers := fun t => ⟨progs t, false⟩
-    subs := fun s => ⟨false, updatesOnly s, fun _ => none, [], 0⟩ }
+    subs := fun s => ⟨false, false, (opts s).updatesOnly, (opts s).lossy, (opts s).mask, fun _ => none, [], [], [], 0⟩ }
 
-/-- the copies of a publication's event still to reach subscriber `s` (given `s` is registered) -/
+/-- the copies of a publication's event still to reach subscriber `s` (given `s` is live) -/
 def copies (s : Nat) (p : Pub M) : List (Event M) :=
   match p.stage with
   | none => [p.ev]
@@ -168,24 +230,32 @@ def copies (s : Nat) (p : Pub M) : List (Event M) :=
 
 def inflight (c : Cfg M) (s : Nat) : List (Event M) := c.pubs.flatMap (copies s)
 
-/-- nothing is in flight: every committed change has been published to everyone -/
+/-- nothing is in flight: every committed change has been handed to every live subscriber's stage -/
 def Cfg.quiescent (c : Cfg M) : Bool := c.pubs.isEmpty
+
+/-- would `mergeInto P e` cancel a pending ADD against the REMOVE `e`? -/
+def cancels : List (Event M) → Event M → Bool
+  | [], _ => false
+  | a :: P, e => if a.id = e.id then a.isAdd && e.new.isNone else cancels P e
 
 /-! ### "Publications delivered in commit order" as a condition on the steps of a run
 
-* a delivery to subscriber `s` is the one of the EARLIEST commit still owed to `s`;
+* a delivery to a live subscriber `s` is the one of the EARLIEST commit still owed to `s`;
 * when a subscriber registers, every committed publication whose `Bus.Send` has not started yet still
-  carries the current value of its id (it has not been overtaken by a later commit's publication).
-Both hold trivially when at most one publication is in flight. -/
+  carries the current value of its id (it has not been overtaken by a later commit's publication); and a
+  LOSSY subscriber registers only when no committed publication is still waiting for its `Bus.Send` at all
+  (its merge stage would treat the duplicate of the seed as news).
+All hold trivially when publications do not overlap other commits or subscribes. -/
 def okStep [DecidableEq M] (c : Cfg M) : Act → Bool
   | .deliver k =>
     match c.pubs.drop k with
     | [] => true
     | p :: _ =>
       match p.stage with
-      | some (s :: _) => (c.pubs.take k).all (fun q => (copies s q).isEmpty)
+      | some (s :: _) => !(c.subs s).live || (c.pubs.take k).all (fun q => (copies s q).isEmpty)
       | _ => true
-  | .sub _ => c.pubs.all (fun p => p.stage.isSome || decide (c.store p.ev.id = p.ev.new))
+  | .sub s =>
+    c.pubs.all (fun p => p.stage.isSome || (!(c.subs s).lossy && decide (c.store p.ev.id = p.ev.new)))
   | _ => true
 
 def ordered [DecidableEq M] (c : Cfg M) : List Act → Bool
